@@ -4,6 +4,7 @@
 -/
 import WowVerif.Model.Dispatch03
 import WowVerif.Model.Dispatch04
+import WowVerif.Model.Dispatch08
 import WowVerif.Model.Dispatch17
 import WowVerif.Model.Dispatch18
 import WowVerif.Model.Dispatch18b
@@ -12,13 +13,16 @@ import WowVerif.Model.Dispatch18c
 open Wv Wv.Drv
 
 structure St where
-  dummy : Nat := 0
+  chain : Wv.Chain.Chain := {}
 
 def step (st : St) (line : String) : St × String :=
   let toks := (line.trimAscii.toString.splitOn " ").filter (· ≠ "")
   match (((((c04 toks).orElse (fun _ => c17 toks)).orElse (fun _ => c18 toks)).orElse (fun _ => c18b toks)).orElse (fun _ => c18c toks)).orElse (fun _ => c03 toks) with
   | some r => (st, r)
-  | none => (st, "bad-op")
+  | none =>
+    match c08 st.chain toks with
+    | some (c, r) => ({ st with chain := c }, r)
+    | none => (st, "bad-op")
 
 partial def loop (hin : IO.FS.Stream) (hout : IO.FS.Stream) (st : St) : IO Unit := do
   let line ← hin.getLine
